@@ -211,6 +211,7 @@ class Z3Mem:
 
 # ---------------------------------------------------------------------------------------------
 _DEC = {}
+DIVOPS = {"div", "divu", "rem", "remu"}
 LOADS = {"lb": (1, True), "lh": (2, True), "lw": (4, True), "lbu": (1, False), "lhu": (2, False)}
 MEMOPS = {"lb", "lh", "lw", "lbu", "lhu", "sb", "sh", "sw"}
 
@@ -304,6 +305,12 @@ def emulate(b, o, x, mem, on_ext, max_steps, wild=None, allowed=()):
                 w = mem.whole(a.as_long(), n) if z3.is_bv_value(a) else None
                 if w is not None:        # same value as e.val, in the form it was stored
                     val = w if n == 4 else (z3.SignExt if signed else z3.ZeroExt)(32 - 8 * n, z3.Extract(8 * n - 1, 0, w))
+            if o.sym and base in DIVOPS:
+                # the special cases of division (divisor 0, overflow) are cases of the manual's definition: take them as
+                # branches under the path condition instead of carrying an if-then-else term around
+                val = z3.simplify(val)
+                while z3.is_app_of(val, z3.Z3_OP_ITE):
+                    val = val.arg(1) if irsem._decide(val.arg(0)) else val.arg(2)
             x[rd] = z3.simplify(val) if o.sym else val
         for (a, v) in e.stores:
             if wild is not None:
